@@ -58,6 +58,7 @@ impl Build for Core {
             "lam" => Core::Lam(b1(&b[0])),
             "let" => Core::Let(b1(&b[0]), aid()),
             "sum2" => Core::Sum2(aid(), b2(&b[1])),
+            "bb" => Core::Bb(b1(&b[0]), b1(&b[1])),
             "" => Core::Num(pay?.parse().ok()?),
             _ => return None,
         })
